@@ -2,7 +2,7 @@
    The theorems are about data_connection::recv as modelled in DataConn.v (loop over the segments the socket
    delivers, one sink write per segment, one flush, end-of-file vs error); the kernel, TCP and the TLS record
    layer are not modelled: that bytes arrive in order and once is assumed and exercised by the correspondence. *)
-From LibFtp Require Import Bytes Endpoint Ascii DataConn DataConn_Proofs Client Client_Proofs Login_Proofs Transfer_Proofs.
+From LibFtp Require Import Bytes Endpoint Ascii DataConn DataConn_Proofs Client Client_Proofs Login_Proofs Transfer_Proofs Transfer_More.
 Local Open Scope N_scope.
 
 (* for every payload and every way it is cut into segments (of any sizes), with or without a callback: a download
@@ -52,3 +52,43 @@ Example C03_example :
   let '(ev, r, _) := data_recv TBinary (mkSink None O) [[1;2;3]; [4]; []; [5;6]] DEof None in
   sink_bytes ev = [1;2;3;4;5;6] /\ r = PDone /\ count_ev is_flush ev = 1%nat.
 Proof. vm_compute. auto. Qed.
+
+(* a whole listing over TLS *)
+Theorem C03_listing_over_tls : forall w path names r1 r2 rest x1 x2 x3 ip port,
+  insync w (r1 :: r2 :: rest) -> w_data w = None ->
+  c_mode (w_cfg w) = Passive -> c_tls (w_cfg w) = true ->
+  arg_ok path ->
+  simple_reaction r1 x1 -> is_negative x1 = false -> passive_target (w_cfg w) x1 ip port ->
+  dp_reachable (r_data r1) = true ->
+  accepts_transfer r2 x2 x3 -> dp_end (r_data r2) = DEof ->
+  dp_tls_ok (r_data r2) = true -> dp_shutdown_ok (r_data r2) = true ->
+  exists w', step w (AList path names) = (OReturn (RvList [x1; x2; x3] (delivered (c_type (w_cfg w)) (concat (dp_segs (r_data r2))))), w') /\
+    insync w' rest /\ w_data w' = None /\ w_cfg w' = w_cfg w /\
+    wire_events (skipn (length (w_trace w)) (w_trace w')) =
+      [WLine (setup_line (w_cfg w)); WReply x1; WLine (line_of (if names then NLST_ else LIST_) path); WReply x2; WReply x3] /\
+    data_events (skipn (length (w_trace w)) (w_trace w')) =
+      [DNewObj; DConnectTo ip port true;
+       DHandshake (if c_resume (w_cfg w) then Some (w_sess_id w) else None) true;
+       DTlsShutdown true; DTcpShutdown; DClose] /\
+    obs_events (skipn (length (w_trace w)) (w_trace w')) =
+      told (w_obs w) (ORequest (setup_line (w_cfg w))) ++ told (w_obs w) (OReply x1) ++
+      told (w_obs w) (ORequest (line_of (if names then NLST_ else LIST_) path)) ++ told (w_obs w) (OReply x2) ++
+      told (w_obs w) (OFileList (delivered (c_type (w_cfg w)) (concat (dp_segs (r_data r2))))) ++ told (w_obs w) (OReply x3).
+Proof. exact list_passive_complete_tls. Qed.
+Print Assumptions C03_listing_over_tls.
+
+(* a whole listing in the active modes *)
+Theorem C03_listing_active : forall w path names r1 r2 rest x1 x2 x3 line,
+  insync w (r1 :: r2 :: rest) -> w_data w = None ->
+  c_mode (w_cfg w) = Active -> c_tls (w_cfg w) = false ->
+  arg_ok path -> adv_cmd w = Some line ->
+  simple_reaction r1 x1 -> is_negative x1 = false ->
+  accepts_transfer r2 x2 x3 -> dp_reachable (r_data r2) = true -> dp_end (r_data r2) = DEof ->
+  exists w', step w (AList path names) = (OReturn (RvList [x1; x2; x3] (delivered (c_type (w_cfg w)) (concat (dp_segs (r_data r2))))), w') /\
+    insync w' rest /\ w_data w' = None /\ w_cfg w' = w_cfg w /\
+    wire_events (skipn (length (w_trace w)) (w_trace w')) =
+      [WLine line; WReply x1; WLine (line_of (if names then NLST_ else LIST_) path); WReply x2; WReply x3] /\
+    data_events (skipn (length (w_trace w)) (w_trace w')) =
+      [DNewObj; DListen; DAcceptOk; DTcpShutdown; DClose; DAccClose].
+Proof. exact list_active_complete. Qed.
+Print Assumptions C03_listing_active.
